@@ -5,9 +5,11 @@ import (
 	"hash/fnv"
 	"sort"
 	"strconv"
+	"strings"
 
 	"github.com/DataDog/sketches-go/ddsketch"
 	"github.com/DataDog/sketches-go/ddsketch/mapping"
+	"github.com/DataDog/sketches-go/ddsketch/stat"
 	"github.com/DataDog/sketches-go/ddsketch/store"
 
 	"verif/mc"
@@ -626,6 +628,11 @@ type SketchScenarioSpec struct {
 	ContentClause string
 	Transition    func(parent, child *SketchWorld, op skOp) []mc.Fail
 	WantTag       string
+	// Ctor, if non-nil, builds slot i through one of the library's convenience
+	// constructors instead of NewDDSketch (nil result = use the default); Map and
+	// Stores state what that constructor is documented to produce, and the
+	// reference is built from them, not from the object.
+	Ctor func(slot int) *SkSlot
 }
 
 func skSeed(name string, ops ...skOp) mc.Seed[*SketchWorld] {
@@ -653,11 +660,25 @@ func (sp *SketchScenarioSpec) Build() *mc.Scenario[*SketchWorld] {
 	}
 	sc.Fresh = func() *SketchWorld {
 		w := &SketchWorld{Spec: sp.Map, Map: sp.Map.New()}
-		for _, k := range sp.Stores {
-			w.S = append(w.S, NewSkSlot(w.Map, k, sp.Exact))
+		for i, k := range sp.Stores {
+			var sl *SkSlot
+			if sp.Ctor != nil {
+				sl = sp.Ctor(i)
+			}
+			if sl == nil {
+				sl = NewSkSlot(w.Map, k, sp.Exact)
+			}
+			w.S = append(w.S, sl)
 			w.M = append(w.M, NewSkModel(k, sp.Map, w.Map))
 			if sp.Twin {
-				w.T = append(w.T, NewSkSlot(w.Map, k, sp.Exact))
+				var tw *SkSlot
+				if sp.Ctor != nil {
+					tw = sp.Ctor(i)
+				}
+				if tw == nil {
+					tw = NewSkSlot(w.Map, k, sp.Exact)
+				}
+				w.T = append(w.T, tw)
 			}
 		}
 		return w
@@ -759,3 +780,64 @@ func mapGrid(tier string) []MapSpec {
 }
 
 var nonCollapsing = []Kind{{K: 'D'}, {K: 'S'}, {K: 'P'}}
+
+// sketchCtor names one convenience constructor of the library together with
+// what it is documented to build (logarithmic mapping of the given accuracy;
+// store kind).
+type sketchCtor struct {
+	Name  string
+	Store func(n int) Kind
+	Exact bool
+	New   func(alpha float64, n int) *SkSlot
+}
+
+func plainSlot(k Kind) func(*ddsketch.DDSketch, error) *SkSlot {
+	return func(s *ddsketch.DDSketch, err error) *SkSlot {
+		must(err, "constructor refused a valid accuracy")
+		return &SkSlot{Store: k, P: s}
+	}
+}
+
+var sketchCtors = []sketchCtor{
+	{Name: "NewDefaultDDSketch", Store: func(int) Kind { return Kind{K: 'P'} },
+		New: func(a float64, _ int) *SkSlot { return plainSlot(Kind{K: 'P'})(ddsketch.NewDefaultDDSketch(a)) }},
+	{Name: "LogUnboundedDenseDDSketch", Store: func(int) Kind { return Kind{K: 'D'} },
+		New: func(a float64, _ int) *SkSlot { return plainSlot(Kind{K: 'D'})(ddsketch.LogUnboundedDenseDDSketch(a)) }},
+	{Name: "LogCollapsingLowestDenseDDSketch", Store: func(n int) Kind { return Kind{K: 'L', N: n} },
+		New: func(a float64, n int) *SkSlot {
+			return plainSlot(Kind{K: 'L', N: n})(ddsketch.LogCollapsingLowestDenseDDSketch(a, n))
+		}},
+	{Name: "LogCollapsingHighestDenseDDSketch", Store: func(n int) Kind { return Kind{K: 'H', N: n} },
+		New: func(a float64, n int) *SkSlot {
+			return plainSlot(Kind{K: 'H', N: n})(ddsketch.LogCollapsingHighestDenseDDSketch(a, n))
+		}},
+	{Name: "NewDefaultDDSketchWithExactSummaryStatistics", Exact: true, Store: func(int) Kind { return Kind{K: 'P'} },
+		New: func(a float64, _ int) *SkSlot {
+			e, err := ddsketch.NewDefaultDDSketchWithExactSummaryStatistics(a)
+			must(err, "constructor refused a valid accuracy")
+			return &SkSlot{Store: Kind{K: 'P'}, Exact: true, E: e}
+		}},
+	{Name: "NewDDSketchWithExactSummaryStatisticsFromData(NewDDSketchFromStoreProvider(log, store.SparseStoreConstructor), NewSummaryStatistics())", Exact: true, Store: func(int) Kind { return Kind{K: 'S'} },
+		New: func(a float64, _ int) *SkSlot {
+			m, err := mapping.NewDefaultMapping(a)
+			must(err, "NewDefaultMapping refused a valid accuracy")
+			e, err := ddsketch.NewDDSketchWithExactSummaryStatisticsFromData(ddsketch.NewDDSketchFromStoreProvider(m, store.SparseStoreConstructor), stat.NewSummaryStatistics())
+			must(err, "an empty sketch with empty statistics was refused")
+			return &SkSlot{Store: Kind{K: 'S'}, Exact: true, E: e}
+		}},
+	{Name: "NewDDSketchFromStoreProvider(NewDefaultMapping, store.DenseStoreConstructor)", Store: func(int) Kind { return Kind{K: 'D'} },
+		New: func(a float64, _ int) *SkSlot {
+			m, err := mapping.NewDefaultMapping(a)
+			must(err, "NewDefaultMapping refused a valid accuracy")
+			return &SkSlot{Store: Kind{K: 'D'}, P: ddsketch.NewDDSketchFromStoreProvider(m, store.DenseStoreConstructor)}
+		}},
+}
+
+func ctorByName(name string) sketchCtor {
+	for _, c := range sketchCtors {
+		if strings.HasPrefix(c.Name, name) {
+			return c
+		}
+	}
+	panic("no constructor " + name)
+}
